@@ -517,6 +517,11 @@ fn run_behaviour(b: &Value, db: &std::path::Path, kill: bool, prop: &'static str
                 }
             }
         };
+        if (act == "AckEnter" && step["post"]["stpc"] == "ackblocked")
+            || (act == "AppAckBegin" && step["post"]["apppc"] == "ackblocked")
+        {
+            *counters.entry("probe:acker-must-wait-for-permit".into()).or_insert(0) += 1;
+        }
         let fs = walk.compare(step, &obs, prop);
         if let Some(x) = walk.non_exclusive.take() {
             // Two ackers are inside Acked::ack at once. Show what that does to the properties: let
